@@ -775,6 +775,18 @@ def _str_method(rt, interp, s, name):
         return Builtin("str.encode", lambda i, a, k: SBytes(rt.f_str_ascii(s.e)))
     if name == "lstrip":
         return Builtin("str.lstrip", lambda i, a, k: SStr(rt.f_str_lstrip(s.e)))
+    if name == "startswith" and rt.oid is not None:
+        def startswith(i, a, k):
+            # textual prefix of dotted OID strings: implied by (but weaker than) the node-wise prefix
+            cands = a[0] if isinstance(a[0], tuple) else (a[0],)
+            out = []
+            for c in cands:
+                ce = rt.to_str_expr(c)
+                if not (z3.is_app(s.e) and s.e.decl().name() == "oid_str" and z3.is_app(ce) and ce.decl().name() == "oid_str"):
+                    raise Undecided("str.startswith on symbolic strings that are not OID texts")
+                out.append(lift_bool(rt.oid.textprefix(s.e.arg(0), ce.arg(0))))
+            return Or(*out)
+        return Builtin("str.startswith", startswith)
     return MISSING
 
 
